@@ -752,7 +752,7 @@ def plan(chk, rng):
     A = [(0, CA)]
     AB = [(0, CA), (1, CB)]
     q = tier == "quick"
-    lim = 300 if q else 3000
+    lim = 300 if q else 1500
     out = [
         # 2 threads x 1 op, same file: every schedule
         ("get||upd", (BIG, A, [[g(0)], [u(0, U1)]]), None, None),
@@ -775,23 +775,24 @@ def plan(chk, rng):
         ("getA;updA||getB-evict", (6, AB, [[g(0), u(0, U1)], [g(1)]]), 2 if q else None, lim),
         # 3 threads x 1 op
         ("upd||upd||get", (BIG, A, [[u(0, U1)], [u(0, U2)], [g(0)]]), 1 if q else 2, lim),
-        ("get||upd||unl", (BIG, A, [[g(0)], [u(0, U1)], [x(0)]]), 1 if q else 2, 200 if q else 3000),
+        ("get||upd||unl", (BIG, A, [[g(0)], [u(0, U1)], [x(0)]]), 1 if q else 2, 200 if q else 1500),
+        ("getA||getA||getB-evict", (6, AB, [[g(0)], [g(0)], [g(1)]]), 1 if q else 2, lim),
     ]
     # the universes of the theorems (as the extracted model lists them)
-    uni = chk.run_model(["(universe u21)", "(universe u22)", "(universe u31)", "(universe u2112)"])
+    uni = chk.run_model(["(universe u21)", "(universe u22)", "(universe u31)", "(universe u2112)", "(universe u31e)"])
     if q:
-        pool = [(nm, c) for nm, U in zip(("U21", "U22", "U31", "U2112"), uni) for c in U]
+        pool = [(nm, c) for nm, U in zip(("U21", "U22", "U31", "U2112", "U31e"), uni) for c in U]
         for nm, c in rng.sample(pool, 6):
             cfg = cfg_from_model(c[0])
             out.append(("%s:%s" % (nm, cfg_name(cfg)), cfg, 2, 100))
     else:
         for c in uni[0]:
             cfg = cfg_from_model(c[0])
-            out.append(("U21:" + cfg_name(cfg), cfg, None, 150))
-        for nm, U in (("U22", uni[1]), ("U31", uni[2]), ("U2112", uni[3])):
+            out.append(("U21:" + cfg_name(cfg), cfg, None, 100))
+        for nm, U in (("U22", uni[1]), ("U31", uni[2]), ("U2112", uni[3]), ("U31e", uni[4])):
             for c in U:
                 cfg = cfg_from_model(c[0])
-                out.append(("%s:%s" % (nm, cfg_name(cfg)), cfg, 2, 120))
+                out.append(("%s:%s" % (nm, cfg_name(cfg)), cfg, 2, 60))
         # beyond the theorems: 2x2 on two files, 3 threads x 2 ops (sampled, preemption bound 2)
         out += [
             ("updA;getB||updB;getA", (BIG, AB, [[u(0, U1), g(1)], [u(1, U2), g(0)]]), 2, 1000),
